@@ -123,6 +123,43 @@ example : ((runOld init wRejectedSteps).map fun s => (staleOld (s.socks wU0), (s
     = some (true, some 1, [0]) := by decide
 example : (run init wStaleSteps).isNone = true := by decide
 
+/-! ### abstract unix sockets: what skipping the last close's cleanup for them would do -/
+
+def wA0 : Addr := ⟨true, 30⟩
+
+/-- `unlinkUnixSocket` returning early for abstract names (before it closes the descriptor caddy keeps and
+    deletes the `unixSockets` entry): the last close leaves the entry, the kept descriptor — and with it
+    the kernel name — in place -/
+def closeUnixKeepAbstract (a : Addr) (k : Sock) (h : Handle) : Sock :=
+  if a.abstract && decide (k.ucnt ≤ 1) then
+    { pool := poolAfterClose k h, ucnt := 0, umap := k.umap, file := k.file, leaks := k.leaks + 1, hs := k.hs.erase h }
+  else closeUnix k h
+
+def closeSockKeepAbstract (a : Addr) (k : Sock) (g : Gen) : Sock :=
+  match k.hs.find? (fun h => h.gen == g) with
+  | none => k
+  | some h => if a.unix then closeUnixKeepAbstract a k h else closeTcp k h
+
+def effKeepAbstract (s : State) : Step → State
+  | .close g a => { s with socks := setSock s.socks a (closeSockKeepAbstract a (s.socks a) g) }
+  | st => eff s st
+
+def runKeepAbstract (s : State) : List Step → Option State
+  | [] => some s
+  | st :: rest => if enabled s st then runKeepAbstract (effKeepAbstract s st) rest else none
+
+/-- load `[a0]`, then a config without listeners (`C02 seq 0 0 a0;- - -`) -/
+def wAbsSteps : List Step :=
+  reloadSteps ⟨0, [wA0]⟩ none wSched ++ reloadSteps ⟨1, []⟩ (some ⟨0, [wA0]⟩) wSched
+
+/-- **Non-vacuity of `dropped_abstract_socket_is_refused`.**  The code's machine: refused, entry gone.
+    With the early return: the name stays bound for the life of the process, a connect is accepted by the
+    kernel and never served, the table entry (counter 0) stays for a later config to "reuse". -/
+theorem dropped_abstract_socket_kept_open_fails :
+    ((run init wAbsSteps).map fun s => (connect s wA0, (s.socks wA0).umap, (s.socks wA0).ucnt)) = some ([.refused], none, 0) ∧
+    ((runKeepAbstract init wAbsSteps).map fun s => (connect s wA0, (s.socks wA0).umap, (s.socks wA0).ucnt))
+      = some ([.hangs], some 0, 0) := by decide
+
 /-! ### request contexts: what deriving them from the config's context would do -/
 
 /-- the machine with request contexts descending from the config's context (`BaseContext` returning the
